@@ -226,8 +226,30 @@ def gen_moisture(rng):
                 continue
             if rem != 0 and abs(rem) < F(1, 10 ** 6):
                 continue
-        return {'fn': 'moisture', 'kinds': kinds, 'R': R, 'P': P, 'ID': ident, 'mc': fl(mc), 'strict': strict}
+        c = {'fn': 'moisture', 'kinds': kinds, 'R': R, 'P': P, 'ID': ident, 'mc': fl(mc), 'strict': strict}
+        # what happened to the two Stream objects before the call: imass read, a pass-through partner linked, unlink()
+        for key, kind in (('prepR', kinds[0]), ('prepP', kinds[1])):
+            c[key] = gen_link_hist(rng) if kind == 'S' and rng.random() < 0.6 else []
+        return c
     raise RuntimeError('gen_moisture')
+
+LINK_OPS = ['mass', 'link', 'unlink']
+def gen_link_hist(rng):
+    return [rng.choice(LINK_OPS) for _ in range(rng.randint(1, 5))]
+
+def apply_link_hist(s, ops, partners):
+    for op in ops:
+        if op == 'mass':
+            s.imass
+        elif op == 'link':
+            partner = mkstream([0.] * N)
+            partner.link_with(s)
+            partners.append(partner)
+        else:
+            s.unlink()
+
+def lops_term(ops):
+    return clist(ops, lambda o: {'mass': 'LMass', 'link': 'LLink', 'unlink': 'LUnlink'}[o])
 
 def gen_mix_moisture(rng):
     for _ in range(100):
@@ -423,6 +445,32 @@ def gen_vle(rng):
     c['alias'] = rng.choice([None, None, 'top', 'bottom'])      # one outlet IS the feed object
     c['share'] = rng.choice(['same', 'link'])
     return c
+
+MS_HOLDERS = ['lg', 'lg', 'lg', 'lgs', 'Llg', 'Lgls']
+FEED_PHASES = ['l', 'g', 'L', 's']
+FEED_MULTI = ['lL', 'lg', 'Lg', 'ls', 'Ls', 'gs', 'Llg', 'lgs', 'Lgs', 'Lgls']
+def gen_vle_hist(rng):
+    """two to four vle(...) calls handed the same multi_stream; feeds are Streams of any phase or MultiStreams of any
+    phase set (rows may be empty), so the holder's phases grow between calls"""
+    holder = rng.choice(MS_HOLDERS)
+    ms0 = {p: (flows(rng) if rng.random() < 0.5 else [0.] * N) for p in holder} if rng.random() < 0.5 else None
+    calls = []
+    for _ in range(rng.randint(2, 4)):
+        if rng.random() < 0.45:
+            feed = {'phase': rng.choice(FEED_PHASES), 'v': flows(rng, nz=rng.randint(1, N))}
+            total = feed['v']
+        else:
+            phases = rng.choice(FEED_MULTI)
+            rows = {p: (flows(rng, nz=rng.randint(1, 3)) if rng.random() < 0.55 else [0.] * N) for p in phases}
+            feed = {'phases': phases, 'rows': rows}
+            total = [fl(sum(F(rows[p][i]) for p in phases)) for i in range(N)]
+        call = {'feed': feed, 'total': total}
+        if rng.random() < 0.6:
+            call['split'] = [fl(rng.choice(SPLITS)) for _ in range(N)]
+        else:
+            call['g'], call['l'] = gen_eq_rows(rng, total)
+        calls.append(call)
+    return {'fn': 'vle_hist', 'holder': holder, 'ms0': ms0, 'calls': calls}
 
 def gen_phase_split(rng):
     r = rng.random()
@@ -691,7 +739,7 @@ GENS = [('mix_hist', gen_mix_hist, 10), ('binary', gen_binary, 4), ('rr', gen_rr
         ('mix_moisture', gen_mix_moisture, 4),
         ('partition', gen_partition, 16), ('partition_real', lambda r: gen_partition(r, real=True), 8),
         ('phase_fraction', lambda r: gen_partition(r, real=r.random() < 0.4, fn='phase_fraction'), 4),
-        ('lle', gen_lle, 10), ('vle', gen_vle, 5), ('phase_split', gen_phase_split, 5),
+        ('lle', gen_lle, 10), ('vle', gen_vle, 5), ('vle_hist', gen_vle_hist, 9), ('phase_split', gen_phase_split, 5),
         ('splits', gen_splits, 6), ('balance', gen_balance, 8), ('balance_comp', gen_balance_comp, 8)]
 
 def gen_cases(rng, tier):
@@ -897,6 +945,35 @@ class SolveRecorder:
     def __exit__(self, *a):
         np.linalg.solve, np.linalg.lstsq = self.real_solve, self.real_lstsq
 
+class RawVLEStub(EqStub):
+    """table-driven flash that reads and writes the rows of the working stream directly (by position in the phase tuple),
+    as the solver's own arrays do, not through the key index of the indexer"""
+    def __init__(self, spec):
+        self.cls, self.spec = 'VLE', spec
+    def __enter__(self):
+        eq = env()['tmo'].equilibrium
+        self.klass = getattr(eq, self.cls)
+        self.real = self.klass.__call__
+        seen = self.seen = []
+        spec = self.spec
+        def call(obj, *a, **k):
+            imol = obj._imol
+            phases = [str(p) for p in imol._phases]
+            data = np.asarray(imol.data.to_array(), float)
+            seen.append([phases, data.tolist()])
+            rows = imol.data.rows
+            if 'split' in spec[0]:
+                total = data.sum(0)
+                g = np.array(spec[0]['split'], float) * total
+                l = total - g
+                for r in rows: r[:] = 0.
+            else:
+                g, l = np.array(spec[0]['g'], float), np.array(spec[0]['l'], float)
+            rows[phases.index('g')][:] = g
+            rows[phases.index('l')][:] = l
+        self.klass.__call__ = call
+        return self
+
 def eq_table(case, pa, pb):
     """what the stubbed equilibrium call does"""
     if case.get('eq_mode') == 'rel':
@@ -960,6 +1037,8 @@ def run_impl(case):
                 'ins_kept': others == [v for v, s in zip(case['ins'], ins) if s is not top and s is not bot]}
     if fn == 'moisture':
         R = build_moist(case['kinds'][0], case['R']); P = build_moist(case['kinds'][1], case['P'])
+        partners = []
+        apply_link_hist(R, case.get('prepR') or [], partners); apply_link_hist(P, case.get('prepP') or [], partners)
         c = Catch().run(lambda: S.adjust_moisture_content(R, P, case['mc'], case['ID'], case['strict']))
         return {'R': read_moist(R), 'P': read_moist(P), 'err': c.err}
     if fn == 'mix_moisture':
@@ -1000,6 +1079,26 @@ def run_impl(case):
             c = Catch().run(lambda: S.vle(feed, top, bot, multi_stream=ms, **case['spec']))
         return {'top': arr(top), 'bot': arr(bot), 'err': c.err, 'feed_after': arr(feed), 'seen': st.seen,
                 'phases': [str(top.phase), str(bot.phase)]}
+    if fn == 'vle_hist':
+        tmo = env()['tmo']
+        ms = tmo.MultiStream(None, phases=case['holder'])
+        for p, r in (case.get('ms0') or {}).items():
+            ms.imol[p] = np.array(r, float)
+        res = []
+        for call in case['calls']:
+            f = call['feed']
+            if 'phase' in f:
+                feed = mkstream(f['v'], f['phase'])
+            else:
+                feed = mkmulti(f['phases'], [f['rows'][p] for p in f['phases']])
+            top = mkstream([0.] * N); bot = mkstream([0.] * N)
+            spec = [call]
+            with RawVLEStub(spec) as st:
+                c = Catch().run(lambda: S.vle(feed, top, bot, multi_stream=ms, V=0.5, P=101325.))
+            res.append({'top': arr(top), 'bot': arr(bot), 'err': c.err, 'seen': st.seen[0] if st.seen else None,
+                        'feed_after': arr(feed), 'phases': [str(top.phase), str(bot.phase)],
+                        'holder': [str(p) for p in ms.phases]})
+        return {'calls': res, 'err': None}
     if fn == 'phase_split':
         feed = mkmulti(case['phases'], case['rows']) if case['multi'] else mkstream(case['rows'][0], case['phases'])
         for p, r, o_ in zip(case['phases'], case['rows'], case.get('row_orders') or []):
@@ -1169,7 +1268,8 @@ def coq_case(case, out):
         return (f'(pair_approxb (mix_and_split {cnat(N)} {clist(case["ins"], qlist)} {qlist(split_vec(case["split"]))}) '
                 f'{qlist(out["top"])} {qlist(out["bot"])} && {cbool(out["err"] is None and out["ins_kept"])})')
     if fn == 'moisture':
-        return (f'(mres_eqb (adjust_moisture {qlist(MWS)} {cstrm(case["R"])} {cstrm(case["P"])} {moisture_args(case)}) '
+        return (f'(omres_eqb (adjust_moisture_hist {qlist(MWS)} {cstrm(case["R"])} {cstrm(case["P"])} '
+                f'{lops_term(case.get("prepR") or [])} {lops_term(case.get("prepP") or [])} {moisture_args(case)}) '
                 f'{qlist(out["R"][0])} {qlist(out["R"][1])} {qlist(out["P"][0])} {qlist(out["P"][1])} {coerr(out["err"])})')
     if fn == 'mix_moisture' and case.get('pkg'):
         pos = clist(pkg_pos(case['pkg']), lambda x: copt(x, cnat))
@@ -1233,6 +1333,29 @@ def coq_case(case, out):
         return (f'(pair_approxb (vle_ms {eq_term(case, "g")} {ms0} {cnat(k)} {qlist(case["feed"])}) '
                 f'{qlist(out["top"])} {qlist(out["bot"])} && {seen_ok} '
                 f'&& {cbool(out["err"] is None and out["phases"] == ["g", "l"] and (bool(case.get("alias")) or out["feed_after"] == case["feed"]))})')
+    if fn == 'vle_hist':
+        rows4 = [(case.get('ms0') or {}).get(p, [0.] * N) for p in 'Lgls']
+        calls, exps, ok = [], [], True
+        for call, o in zip(case['calls'], out['calls']):
+            f = call['feed']
+            if 'phase' in f:
+                ft = f'(FStream {cnat(PHCODE[f["phase"]])} {qlist(f["v"])})'
+            else:
+                ft = (f'(FMulti {present_list(f["phases"])} '
+                      f'{clist([f["rows"].get(p, [0.] * N) for p in "Lgls"], qlist)})')
+            if 'split' in call:
+                calls.append(f'(mkVC {ft} (eq_rel {cnat(N)} {qlist(call["split"])}) false)')
+            else:
+                calls.append(f'(mkVC {ft} (eq_abs {qlist(call["g"])} {qlist(call["l"])}) true)')
+            seen = clist(o['seen'][1], qlist) if o['seen'] else '[]'
+            if o['err']:
+                exps.append(f'(Err {cerr(o["err"])}, {seen})')
+            else:
+                exps.append(f'(Ok ({qlist(o["top"])}, {qlist(o["bot"])}), {seen})')
+                ok = ok and o['phases'] == ['g', 'l'] and o['seen'] is not None and o['seen'][0] == o['holder'] \
+                    and o['feed_after'] == call['total']
+        return (f'(vhist_eqb (vle_hist {cnat(N)} (vinit {present_list(case["holder"])} {clist(rows4, qlist)} []) '
+                f'{clist(calls, lambda x: x)}) {clist(exps, lambda x: x)} && {cbool(ok)})')
     if fn == 'phase_split':
         exp = f'(Err {cerr(out["err"])})' if out['err'] else f'(Ok {clist(out["outs"], qlist)})'
         ok = True
@@ -1333,7 +1456,7 @@ def nontrivial(case, out):
         return out['err'] == 'InfeasibleRegion'
     if fn in ('clip', 'binary', 'rr', 'vle_real'):
         return True
-    if fn == 'mix_hist':
+    if fn in ('mix_hist', 'vle_hist'):
         return any(any(oc['top']) or any(oc['bot']) for oc in out['calls'])
     if fn == 'mix_split' and case.get('top_phases'):
         return any(any(r) for r in out['top'] + out['bot'])
@@ -1386,6 +1509,14 @@ def classify(case, out):
         ks.append('kinds:' + case['kinds'])
         ks.append('strict:' + str(case['strict']))
         ks.append('ID:' + str(case['ID']))
+        if case.get('prepR') or case.get('prepP'):
+            ks.append('link-history:' + '+'.join(sorted(set((case.get('prepR') or []) + (case.get('prepP') or [])))))
+    if fn == 'vle_hist':
+        grown = any(sorted(oc['holder']) != sorted(case['holder']) for oc in out['calls'])
+        ks.append('holder:' + ('phases-grew' if grown else 'phases-kept'))
+        if any(oc['holder'] and oc['holder'][0] == 'L' and 'L' not in case['holder'] for oc in out['calls']):
+            ks.append('holder:rows-shifted')
+        ks.append('feeds:' + '+'.join(sorted({'stream' if 'phase' in c_['feed'] else 'multi' for c_ in case['calls']})))
     if fn in ('lle', 'vle'):
         ks.append('eq_stub:' + case.get('eq_mode', 'abs'))
         if case.get('ms0'):
@@ -1465,6 +1596,29 @@ def oracle(case):
                         f'{vadd(oc["top"], oc["bot"])} in {where}')
             if not close(oc['top'], [s_ * m_ for s_, m_ in zip(sp, mixed)]):
                 return f'mix_and_split: top outlet {oc["top"]} is not split * mixed {mixed} in {where}'
+        return None
+    if fn == 'vle_hist':
+        for k, (call, oc) in enumerate(zip(case['calls'], out['calls'])):
+            f = call['feed']
+            where = (f'call {k + 1} of {len(case["calls"])} with one multi_stream (created with phases {case["holder"]!r}); '
+                     f'this feed: ' + (f'Stream of phase {f["phase"]!r}' if 'phase' in f else f'MultiStream of phases {f["phases"]!r}')
+                     + f', multi_stream phases now {oc["holder"]}')
+            if oc['err']:
+                return f'vle-reused-multi_stream: raised {oc["err"]} in {where}'
+            total = call['total']
+            if 'split' in call:
+                g = [s_ * t for s_, t in zip(call['split'], total)]
+                l = [t - x for t, x in zip(total, g)]
+            else:
+                g, l = call['g'], call['l']
+            if close(vadd(g, l), total) and not close(vadd(oc['top'], oc['bot']), total):
+                return (f'vle-reused-multi_stream: vapour + liquid = {vadd(oc["top"], oc["bot"])} but the feed holds {total} '
+                        f'(the flash wrote g = {g}, l = {l}) in {where}')
+            if not (close(oc['top'], g) and close(oc['bot'], l)):
+                return (f'vle-reused-multi_stream: vapour / liquid outlet {oc["top"]} / {oc["bot"]} is not the g / l row of the '
+                        f'flash {g} / {l} in {where}')
+            if nonneg(g) and nonneg(l) and not (nonneg(oc['top']) and nonneg(oc['bot'])):
+                return f'vle-reused-multi_stream: negative outlet flow in {where}'
         return None
     if fn == 'vle_real':
         if err:
